@@ -76,6 +76,7 @@ class SessionModel:
         self.data = False
         self.ttype = "I"
         self.closed = False
+        self.others = {}                 # login -> connections of that user held by *other* sessions
 
     # -- helpers -----------------------------------------------------------
     def key(self):
@@ -149,6 +150,8 @@ class SessionModel:
         self.rename_from = None          # a pending rename belongs to the login that issued it
         if u is None:
             return Expect(["530"])
+        if u.maxconn is not None and self.others.get(u.login, 0) >= u.maxconn:
+            return Expect(["530"])       # refused: no slot left, and the session is attached to nobody
         self.user = u
         self.cwd = u.home
         if u.password is None:
